@@ -65,6 +65,59 @@ def analysis_obligations(rep: Report, which: str, g: dict):
                "fixpoint computation", "pegir-fixpoint", function="pegen/parser_generator.py:compute_left_recursives")
 
 
+def dedup_obligations(rep: Report):
+    """helper rules are shared between groups only when the groups are structurally identical, names and actions included:
+    the sharing key is repr(rhs), and every __repr__ of the grammar node classes shows every field that matters for parsing"""
+    import ast
+    import os
+    gen = ast.parse(open(os.path.join(REPO, "tasks", "generator.py"), encoding="utf-8").read())
+    fn = next((n for c in ast.walk(gen) if isinstance(c, ast.ClassDef) for n in c.body if isinstance(n, ast.FunctionDef) and n.name == "artifical_rule_from_rhs"), None)
+    keys = set()
+    for n in ast.walk(fn) if fn else []:
+        if isinstance(n, ast.Call) and isinstance(n.func, ast.Attribute) and n.func.attr == "get" and "_rhs_func_cache" in ast.unparse(n.func.value):
+            keys.add(ast.unparse(n.args[0]))
+        if isinstance(n, ast.Subscript) and "_rhs_func_cache" in ast.unparse(n.value) and isinstance(n.ctx, ast.Store):
+            keys.add(ast.unparse(n.slice))
+    param = fn.args.args[1].arg if fn and len(fn.args.args) > 1 else "rhs"
+    desc = "helper rules are shared between groups under the key repr(<the group's alternatives>), for lookup and for insertion"
+    if fn is not None and keys == {f"repr({param})"}:
+        rep.ok("C17.dedup.key", "structural", desc, "syntactic", function="tasks/generator.py:XonshParserGenerator.artifical_rule_from_rhs")
+    else:
+        rep.fail("C17.dedup.key", "structural", desc, "syntactic", f"cache key expressions: {sorted(keys)}", witness=sorted(keys),
+                 function="tasks/generator.py:XonshParserGenerator.artifical_rule_from_rhs")
+    gr = ast.parse(open(os.path.join(REPO, "pegen", "grammar.py"), encoding="utf-8").read())
+    ignore = {"type", "memo"}          # annotations / flags that do not change what a helper rule parses or returns
+    classes = {c.name: c for c in gr.body if isinstance(c, ast.ClassDef)}
+    bad = []
+    checked = 0
+    for name in ("Rhs", "Alt", "NamedItem", "Opt", "Repeat0", "Repeat1", "Gather", "Group", "PositiveLookahead", "NegativeLookahead", "NameLeaf", "StringLeaf"):
+        c = classes.get(name)
+        if c is None:
+            bad.append(f"{name}: class not found")
+            continue
+        rp = next((m for m in c.body if isinstance(m, ast.FunctionDef) and m.name == "__repr__"), None)
+        init, k = None, c
+        while init is None and k is not None:       # __init__ may be inherited (Repeat0 <- Repeat, NameLeaf <- Leaf)
+            init = next((m for m in k.body if isinstance(m, ast.FunctionDef) and m.name == "__init__"), None)
+            base = k.bases[0].id if k.bases and isinstance(k.bases[0], ast.Name) else None
+            k = classes.get(base) if init is None else None
+        if rp is None or init is None:
+            bad.append(f"{name}: no __repr__ / __init__")
+            continue
+        text = ast.unparse(rp)
+        fields = [a.arg for a in init.args.args[1:] + init.args.kwonlyargs if a.arg not in ignore]
+        own = {"PositiveLookahead": ["node"], "NegativeLookahead": ["node"]}.get(name, fields)
+        for f in own:
+            checked += 1
+            if f"self.{f}" not in text:
+                bad.append(f"{name}.__repr__ does not show field `{f}`")
+    desc = "repr() of every grammar node class shows every field that matters for parsing (item names, actions, cut position, nested nodes), so equal keys mean identical groups"
+    if bad:
+        rep.fail("C17.dedup.repr_injective", "structural", desc, "syntactic", "; ".join(bad[:5]), witness=bad, function="pegen/grammar.py")
+    else:
+        rep.ok("C17.dedup.repr_injective", "structural", desc + f" ({checked} fields of 12 classes)", "syntactic", function="pegen/grammar.py")
+
+
 def run(rep: Report):
     rep.trust("CPython ast", "z3 / cvc5", "engine/pyvc", "engine/pegir + engine/implements (own structural decision procedure)",
               "the repository's pegen front end as grammar reader", "networkx (SCC / DAG test in the independent analysis)")
@@ -93,6 +146,7 @@ def run(rep: Report):
             else:
                 rep.ok(oid, "structural", f"generated method {name} is the PEG meaning of rule `{name}` of {p['grammar']}", "pegir-unify", dt, function=fn)
         analysis_obligations(rep, which, g)
+    dedup_obligations(rep)
     # bounded stand-in: random grammars through the real generator
     n = 60 if rep.tier == "quick" else 600
     t0 = time.time()
